@@ -326,6 +326,11 @@ impl Run {
         let prop = self.prop.clone();
         let replaying = self.replay.is_some();
         crate::abort::set_sub(name);
+        // self-test of the supervisor (tools/selftest_supervisor.sh): LV_SELFTEST=spin:<sub>:<idx> | abort:<sub>:<idx>
+        let selftest: Option<(String, u64)> = std::env::var("LV_SELFTEST").ok().and_then(|v| {
+            let p: Vec<&str> = v.splitn(3, ':').collect();
+            if p.len() == 3 && p[1] == name { Some((p[0].to_string(), p[2].parse().ok()?)) } else { None }
+        });
         let slot_next = std::sync::atomic::AtomicUsize::new(0);
         std::thread::scope(|s| {
             for _ in 0..nthreads {
@@ -348,6 +353,18 @@ impl Run {
                         l.cur_idx = i;
                         let mut rng = Rng::keyed(seed, &prop, name, i);
                         crate::abort::enter_case(i);
+                        if let Some((kind, at)) = &selftest {
+                            if *at == i {
+                                if kind == "spin" {
+                                    let mut x = 0u64;
+                                    loop {
+                                        x = std::hint::black_box(x.wrapping_add(1));
+                                    }
+                                } else {
+                                    std::process::abort();
+                                }
+                            }
+                        }
                         let r = guard(|| f(&mut l, i, &mut rng));
                         crate::abort::leave_case();
                         if let Err(m) = r {
@@ -726,6 +743,7 @@ impl Run {
         cov.put("violation_signatures", J::A(viol_summ));
         cov.put("known_findings_matched", known_hits);
         cov.put("threads", self.threads);
+        cov.put("longest_case_cpu_s", crate::abort::longest_case_cpu_s());
 
         if let Some(leg) = &self.leg {
             // leg mode: summary on stdout, no evidence file
